@@ -283,16 +283,92 @@ def _shard(shard, seed, tier):
     return part
 
 
+REAL_CASES = ["control", "stall-wap", "stall-http-headers", "stall-spartan", "chmod-cache", "hardlink-cache", "touch-directory"]
+
+
+def _shard_real(shard, seed, tier):
+    """Real time, real sockets, a real file system (lifetime 3 s): an entry that is older than the lifetime when
+    the server consults it is not used -- whenever the request began, and whatever happened to the cache file's
+    inode in between."""
+    import socket
+    import time
+
+    from .. import deploy
+
+    part = core.Partial()
+    for case in shard:
+        L = 3
+        srv = deploy.Server({"d": {"a.txt": b"A\n", "b.txt": b"B\n"}}, {"servertype": "ForkingTCPServer", "cachetime": L}, handlers="default", tag="c10r")
+        bad = None
+        try:
+            if not srv.started:
+                bad = ("no-start", "deployment did not come up: %r" % srv.log()[-300:])
+            else:
+                first, _ = srv.fetch(b"/d\r\n")
+                t0 = time.time()
+                cpath = os.path.join(srv.root, "d", CACHE)
+                if b"a.txt" not in first or not os.path.exists(cpath):
+                    raise core.HarnessError("first listing / cache file missing: %r" % first[:80])
+                again, _ = srv.fetch(b"/d\r\n")
+                rig.write_file(os.path.join(srv.root, "d", "n.txt"), b"new\n")
+                os.chmod(os.path.join(srv.root, "d", "n.txt"), 0o644)
+                hit, _ = srv.fetch(b"/d\r\n")
+                if b"n.txt" in hit:
+                    part.count("real_case_without_cache_hit")  # the premise (a live cache entry) does not hold: nothing to learn
+                if case == "chmod-cache":
+                    time.sleep(1.0)
+                    os.chmod(cpath, os.stat(cpath).st_mode & 0o7777)
+                elif case == "hardlink-cache":
+                    time.sleep(1.0)
+                    os.link(cpath, os.path.join(srv.base, "snapshot-of-cache"))
+                elif case == "touch-directory":
+                    time.sleep(1.0)
+                    os.utime(os.path.join(srv.root, "d"))
+                if case.startswith("stall"):
+                    time.sleep(max(0.0, t0 + L - 0.7 - time.time()))
+                    s0 = socket.create_connection(("127.0.0.1", srv.port), timeout=15)
+                    first_part, rest = {"stall-wap": (b"GET /wap/d HTTP/1.0\r\n", b"\r\n"), "stall-http-headers": (b"GET /d HTTP/1.0\r\nAccept: text/vnd.wap.wml\r\n", b"X-Late: 1\r\n\r\n"),
+                                        "stall-spartan": (b"gopher.test /d 5\r\n", b"abcde")}[case]
+                    s0.sendall(first_part)
+                    time.sleep(max(0.0, t0 + L + 0.6 - time.time()))
+                    s0.sendall(rest)
+                    late = b""
+                    while True:
+                        ch = s0.recv(65536)
+                        if not ch:
+                            break
+                        late += ch
+                    s0.close()
+                else:
+                    time.sleep(max(0.0, t0 + L + 0.6 - time.time()))
+                    late, _ = srv.fetch(b"/d\r\n")
+                if b"n.txt" not in late:
+                    bad = ("stale-entry-used", "lifetime %d s: a listing consulted %.1f s after the entry was written still comes from it (no n.txt): %r" % (L, time.time() - t0, late[:200]))
+        finally:
+            srv.stop()
+        part.evaluations += 1
+        part.transitions += 5
+        part.state("real", case)
+        part.outcome("real", case, bad[0] if bad else "")
+        if bad:
+            part.violation("real|%s|%s" % (case, bad[0]), bad[1], {"real": case})
+    return part
+
+
 def _opname(o):
     return o[0] + (":" + str(o[1]) if len(o) > 1 else "")
 
 
 def replay(case):
+    if "real" in case:
+        p = _shard_real([case["real"]], 0, "quick")
+        return (p.violations[0][0], p.violations[0][1]) if p.violations else None
     bad, _, _ = run_history(case["L"], [tuple(o) for o in case["hist"]])
     return bad
 
 
 def run(ck):
+    ck.pmap(_shard_real, [[c] for c in REAL_CASES])
     depth = 5 if ck.tier == "quick" else 8
     cap_states = 12000 if ck.tier == "quick" else 40000
     total_states = 0
